@@ -39,12 +39,20 @@ type Solver struct {
 	Log     io.Writer
 	LastErr string
 	WaitTime time.Duration // total time blocked reading solver answers (checks, models, values)
+	IntMode  bool               // render bit-vectors as integers (see intmode.go)
+	ints     map[int]intInfo
+	broken   error // a term could not be rendered: every later query is inconclusive
 	stack   []int // ids of the path-condition nodes asserted, one push level each
 }
 
 // New starts a solver. kind: z3 | z3-new | cvc5. timeoutMs is the per-query limit.
 func New(kind string, timeoutMs int) (*Solver, error) {
 	var cmd *exec.Cmd
+	intMode := false
+	if strings.HasSuffix(kind, "-int") {
+		intMode = true
+		kind = strings.TrimSuffix(kind, "-int")
+	}
 	switch kind {
 	case "z3", "z3-new":
 		cmd = exec.Command(kind, "-in", fmt.Sprintf("-t:%d", timeoutMs))
@@ -65,7 +73,7 @@ func New(kind string, timeoutMs int) (*Solver, error) {
 	if err := cmd.Start(); err != nil {
 		return nil, err
 	}
-	s := &Solver{Kind: kind, cmd: cmd, inc: in, in: bufio.NewWriterSize(in, 1<<16), out: bufio.NewReaderSize(out, 1<<16), defined: map[int]bool{}}
+	s := &Solver{IntMode: intMode, ints: map[int]intInfo{}, Kind: kind, cmd: cmd, inc: in, in: bufio.NewWriterSize(in, 1<<16), out: bufio.NewReaderSize(out, 1<<16), defined: map[int]bool{}}
 	if kind == "cvc5" {
 		s.send("(set-logic ALL)")
 	}
@@ -120,6 +128,14 @@ func (s *Solver) define(t *term.Term) {
 			continue
 		}
 		x := top.t
+		if s.IntMode {
+			if err := s.defineIntTerm(x); err != nil && s.broken == nil {
+				s.broken = err
+			}
+			s.defined[x.ID] = true
+			st = st[:len(st)-1]
+			continue
+		}
 		switch x.Op {
 		case term.OpConst:
 		case term.OpVar:
@@ -138,6 +154,11 @@ func (s *Solver) define(t *term.Term) {
 func (s *Solver) Check(conj []*term.Term) (Result, error) {
 	for _, c := range conj {
 		s.define(c)
+	}
+	if s.broken != nil {
+		s.Errors++
+		s.LastErr = s.broken.Error()
+		return Unknown, s.broken
 	}
 	t0 := time.Now()
 	if len(s.stack) > 0 {
@@ -224,7 +245,7 @@ func (s *Solver) Value(t *term.Term) (uint64, error) {
 		return 0, fmt.Errorf("Value: term must be defined before check-sat")
 	}
 	if s.Kind == "z3" || s.Kind == "z3-new" {
-		s.send("(eval " + t.Ref() + " :completion true)")
+		s.send("(eval " + s.refOf(t) + " :completion true)")
 		s.in.Flush()
 		l, err := s.readLine()
 		if err != nil {
@@ -232,7 +253,7 @@ func (s *Solver) Value(t *term.Term) (uint64, error) {
 		}
 		return parseVal(l)
 	}
-	s.send("(get-value (" + t.Ref() + "))")
+	s.send("(get-value (" + s.refOf(t) + "))")
 	s.in.Flush()
 	l, err := s.readLine()
 	if err != nil {
@@ -249,6 +270,11 @@ func (s *Solver) Value(t *term.Term) (uint64, error) {
 		}
 		if strings.HasSuffix(l, " false") {
 			return 0, nil
+		}
+		if j := strings.LastIndex(l, " "); j >= 0 {
+			if u, err := parseVal(l[j+1:]); err == nil {
+				return u, nil
+			}
 		}
 		return 0, fmt.Errorf("bad get-value: %q", l)
 	}
@@ -274,6 +300,11 @@ func (s *Solver) CheckInc(pc []PCItem, extra []*term.Term) (Result, error) {
 	}
 	for _, c := range extra {
 		s.define(c)
+	}
+	if s.broken != nil {
+		s.Errors++
+		s.LastErr = s.broken.Error()
+		return Unknown, s.broken
 	}
 	t0 := time.Now()
 	common := 0
@@ -390,24 +421,11 @@ func (s *Solver) ModelIDs(vars []*term.Term) (map[int]uint64, error) {
 		}
 		val := strings.TrimSpace(l[st:k])
 		i = k
-		switch {
-		case val == "true":
-			m[v.ID] = 1
-		case val == "false":
-			m[v.ID] = 0
-		case strings.HasPrefix(val, "#x"):
-			u, _ := strconv.ParseUint(val[2:], 16, 64)
-			m[v.ID] = u
-		case strings.HasPrefix(val, "#b"):
-			u, _ := strconv.ParseUint(val[2:], 2, 64)
-			m[v.ID] = u
-		case strings.HasPrefix(val, "(_ bv"):
-			f := strings.Fields(val)
-			u, _ := strconv.ParseUint(strings.TrimPrefix(f[1], "bv"), 10, 64)
-			m[v.ID] = u
-		default:
+		u, perr := parseVal(val)
+		if perr != nil {
 			return nil, fmt.Errorf("bad value %q for %s", val, v.Name)
 		}
+		m[v.ID] = u
 	}
 	return m, nil
 }
@@ -426,6 +444,15 @@ func parseVal(val string) (uint64, error) {
 	case strings.HasPrefix(val, "(_ bv"):
 		f := strings.Fields(val)
 		return strconv.ParseUint(strings.TrimPrefix(f[1], "bv"), 10, 64)
+	case len(val) > 0 && val[0] >= '0' && val[0] <= '9':
+		return strconv.ParseUint(val, 10, 64)
 	}
 	return 0, fmt.Errorf("bad value %q", val)
+}
+
+func (s *Solver) refOf(t *term.Term) string {
+	if s.IntMode {
+		return s.iref(t)
+	}
+	return t.Ref()
 }
